@@ -17,7 +17,9 @@ NAMES = ["Alpha", "Beta", "Gamma", "Delta", "X-y", "!b"]
 DUP_NAMES = ["Alpha", "alpha", "ALPHA", "Beta", "beta", "Gamma", "X-y"]
 NEW_NAMES = ["New", "Zed", "x-New", "Alpha", "BETA"]
 
-FIRST = [" v\n", "v\n", "  v w  \n", "\tv\n", ": x\n", " #h\n", " \n", "\n", " é漢\n", " a: b\n"]
+FIRST = [" v\n", "v\n", "  v w  \n", "\tv\n", ": x\n", " #h\n", " \n", "\n", " é漢\n", " a: b\n",
+         # white space other than blank and tab inside a value is text
+         " a\u00a0b\u3000c\n", " p\x0cq r\n"]
 CONT = [" c\n", "\tc d\n", "   e \n", " .\n", " #nc\n", " k: v\n", "\tß\n"]
 FCOMMENT = ["", "", "# c\n", "#\n# two\n", "# blanks at the end  \n", "#\t\n#  x \t\n"]
 ICOMMENT = ["", "", "# ic\n"]
@@ -28,7 +30,7 @@ TAILS = ["", "", "", "\n", "\n# trailing\n", "# trailing\n"]
 VALUES = ["n", "  n m ", "n\n c2", "n\n\tc2\n c3", "", "n\n# ic\n c", "x: y", "#hash", "m\n .\n x",
           "\n c", "n\n c\n", "é 漢",
           # blanks at the end of a continuation line belong to the value ("later lines verbatim")
-          "n\n c2  ", "n\n c \t\n", "n\n c1 \n\tc2", "n  \n c"]
+          "n\n c2  ", "n\n c \t\n", "n\n c1 \n\tc2", "n  \n c", "a\u00a0b\u3000c", "n\n p\u3000q"]
 
 
 @st.composite
